@@ -168,7 +168,20 @@ class Env:
         """A parameter re-bound by a top-level assignment before anything
         was written through it: later statements see only the new value."""
         touched = set()
+        deferred = {}    # nested def -> names its body mentions
         for st in model.strip_docstring(self.fi.node.body):
+            if isinstance(st, (ast.FunctionDef, ast.AsyncFunctionDef)):
+                # a definition executes nothing of its body: the names it
+                # mentions count from the first statement that mentions the
+                # function itself (it may be called from there on)
+                deferred[st.name] = {n.id for n in ast.walk(st)
+                                     if isinstance(n, ast.Name)}
+                for d in st.decorator_list + st.args.defaults + [
+                        x for x in st.args.kw_defaults if x is not None]:
+                    for n in ast.walk(d):
+                        if isinstance(n, ast.Name):
+                            touched.add(n.id)
+                continue
             if isinstance(st, ast.Assign) and len(st.targets) == 1 and \
                     isinstance(st.targets[0], ast.Name) and \
                     st.targets[0].id in self.param_vals and \
@@ -185,6 +198,8 @@ class Env:
             for n in ast.walk(st):
                 if isinstance(n, ast.Name):
                     touched.add(n.id)
+                    if n.id in deferred:
+                        touched |= deferred[n.id]
 
     # -- helpers ----------------------------------------------------------
     def _get(self, name):
